@@ -36,7 +36,9 @@ def sort_names(names, ranks=None, smart=False):
     for i, n in enumerate(names):
         # scaffolds carry sequence of varying length (bare scaffolds all have length 0)
         rows = [Fragment("c", 1, 1 + (len(n) * 7919 + i * 104729) % 5000, 1)] if (len(n) + i) % 3 else []
-        asm.add_scaffold(Scaffold(n, rows, rank=(ranks[i] if ranks else 0)))
+        rank = ranks[i] if ranks else 0
+        # rank 0 is the constructor's default: leave it to the constructor
+        asm.add_scaffold(Scaffold(n, rows, rank=rank) if rank else Scaffold(n, rows))
     if smart:
         must(asm.smart_sort_scaffolds, what=f"smart_sort_scaffolds({names})")
         return [(s.rank, s.name) for s in asm.scaffolds]
@@ -97,6 +99,18 @@ def body_numeric(case, rec):
     elif kind == "numeral":
         inv = {v: k for k, v in NUMERALS.items()}
         lo, hi = f"{p}{inv[a]}{s}", f"{p}{inv[b]}{s}"
+    elif kind == "long":
+        # names with hundreds of numeric fields that differ only in a late field (value order != string order)
+        fields = "_".join(str((k * 37) % 100) for k in range(a))
+        lo, hi = f"{p}{fields}_9{s}", f"{p}{fields}_10{s}"
+        for order in ([lo, hi], [hi, lo]):
+            got = sort_names(order)
+            if got != [lo, hi]:
+                raise Violation(f"names with {a} numeric fields: ..._9 must sort before ..._10, got the opposite")
+        lo2, hi2 = f"{p}{fields}_I", f"{p}{fields}_IV"
+        if sort_names([hi2, lo2]) != [lo2, hi2]:
+            raise Violation(f"names with {a} numeric fields: ..._I must sort before ..._IV")
+        return
     elif kind == "prefix_pair":
         # a name and the same name with a number appended (X / X1 / X2): the shorter one first
         want = [f"{p}X", f"{p}X1", f"{p}X2", f"{p}X10"]
@@ -239,7 +253,7 @@ def set_cases(draw):
 
 @st.composite
 def numeric_cases(draw):
-    kind = draw(st.sampled_from(["decimal", "decimal", "numeral", "unloc", "rank", "prefix_pair"]))
+    kind = draw(st.sampled_from(["decimal", "decimal", "numeral", "unloc", "rank", "prefix_pair", "long"]))
     p = draw(st.sampled_from(["SUPER_", "CHR", "chr_", "LG", "scaffold_", "a.b-", "x", "Hap1_s", ""]))
     s = draw(st.sampled_from(["", "_unloc_1", "A", "B", "_x", ".q", "-r"]))
     case = {"kind": kind, "p": p, "s": s, "a": 0, "b": 0}
@@ -256,6 +270,10 @@ def numeric_cases(draw):
     elif kind == "unloc":
         case["a"] = draw(st.integers(1, 30))
         case["p"] = draw(st.sampled_from(["SUPER_", "CHR", "chr_", "LG"]))
+    elif kind == "long":
+        case["a"] = draw(st.sampled_from([50, 200, 254, 255, 256, 257, 400]))
+        case["p"] = draw(st.sampled_from(["SUPER_", "ctg", "x."]))
+        case["s"] = draw(st.sampled_from(["", "_unloc_1"]))
     else:
         n = draw(st.integers(2, 8))
         case["names"] = [draw(name()) for _ in range(n)]
